@@ -43,6 +43,9 @@ type ammWorld struct {
 	decomBudget int
 	// the harness's own ledger: pool symbol + "/" + address -> height of the provider's last ACCEPTED create / add
 	lastAdd map[string]int64
+	// quiet: no observation lines after a message (long set-up runs of identical messages; the state is compared
+	// again at the next observed step)
+	quiet bool
 }
 
 func userAddr(i int) sdk.AccAddress { return sdk.AccAddress(bytes.Repeat([]byte{byte(0x10 + i)}, 20)) }
@@ -112,10 +115,37 @@ func (w *ammWorld) fund(a sdk.AccAddress, denom string, amt *big.Int) {
 }
 
 // dump renders the implementation's AMM state in the token format of Sif/Driver/Amm.lean.
+// rawPools / rawProviders: every pool and provider record in the clp store, read with a plain prefix iterator and
+// decoded here — not through the keeper's list getters, which are code under test (a getter that pages or caps
+// its answer would otherwise hide records from the judge).
+func (w *ammWorld) rawPools() []*clptypes.Pool {
+	var l []*clptypes.Pool
+	it := sdk.KVStorePrefixIterator(w.ctx.KVStore(w.app.GetKey(clptypes.StoreKey)), clptypes.PoolPrefix)
+	defer it.Close()
+	for ; it.Valid(); it.Next() {
+		var p clptypes.Pool
+		w.app.AppCodec().MustUnmarshal(it.Value(), &p)
+		l = append(l, &p)
+	}
+	return l
+}
+
+func (w *ammWorld) rawProviders() []*clptypes.LiquidityProvider {
+	var l []*clptypes.LiquidityProvider
+	it := sdk.KVStorePrefixIterator(w.ctx.KVStore(w.app.GetKey(clptypes.StoreKey)), clptypes.LiquidityProviderPrefix)
+	defer it.Close()
+	for ; it.Valid(); it.Next() {
+		var p clptypes.LiquidityProvider
+		w.app.AppCodec().MustUnmarshal(it.Value(), &p)
+		l = append(l, &p)
+	}
+	return l
+}
+
 func (w *ammWorld) dump() string {
 	k := w.app.ClpKeeper
 	var sb strings.Builder
-	pools := k.GetPools(w.ctx)
+	pools := w.rawPools()
 	sort.Slice(pools, func(i, j int) bool {
 		return pools[i].ExternalAsset.Symbol+"_rowan" < pools[j].ExternalAsset.Symbol+"_rowan"
 	})
@@ -124,7 +154,7 @@ func (w *ammWorld) dump() string {
 		fmt.Fprintf(&sb, " %s %s %s %s %s %s %s %s %s %s", p.ExternalAsset.Symbol, p.NativeAssetBalance, p.ExternalAssetBalance, p.PoolUnits,
 			p.NativeLiabilities, p.ExternalLiabilities, p.NativeCustody, p.ExternalCustody, p.RewardPeriodNativeDistributed, p.RewardAmountExternal)
 	}
-	lps, _ := k.GetAllLiquidityProviders(w.ctx)
+	lps := w.rawProviders()
 	// canonical order of the dump: by pool symbol, then address (store order within a pool)
 	sort.Slice(lps, func(i, j int) bool {
 		if lps[i].Asset.Symbol != lps[j].Asset.Symbol {
@@ -173,6 +203,9 @@ func (w *ammWorld) dump() string {
 }
 
 func (w *ammWorld) observe(tag string) {
+	if w.quiet {
+		return
+	}
 	d := w.dump()
 	w.out.Emit("obs", d, "obs", false)
 	w.out.Emit("chk c01.solvent tag="+tag+".solvent "+d, "true", "chk.solvent", false)
@@ -797,8 +830,19 @@ func (w *ammWorld) opAdd(u sdk.AccAddress, sym string, n, e *big.Int) {
 			class = "add.emptyside" // the ErrorEmptyPool branch of CalculatePoolUnits on an existing pool
 		}
 	}
+	// one add in eight is signed under the all-upper-case bech32 spelling of the same account (valid: ValidateBasic
+	// and GetSigners decode it to the same address); the model is told the account, not the spelling
+	signer := u.String()
+	if w.rng.Chance(1, 8) {
+		signer = strings.ToUpper(signer)
+		class += ".spelled"
+	}
 	w.tx(fmt.Sprintf("add %s %s %s %s", u, sym, n, e), class, func(ctx sdk.Context) (string, error) {
-		_, err := w.srv.AddLiquidity(sdk.WrapSDKContext(ctx), &clptypes.MsgAddLiquidity{Signer: u.String(), ExternalAsset: asset(sym), NativeAssetAmount: uintOf(n), ExternalAssetAmount: uintOf(e)})
+		m := &clptypes.MsgAddLiquidity{Signer: signer, ExternalAsset: asset(sym), NativeAssetAmount: uintOf(n), ExternalAssetAmount: uintOf(e)}
+		if err := m.ValidateBasic(); err != nil && signer != u.String() {
+			panic("harness: the upper-case spelling must be a valid signer: " + err.Error())
+		}
+		_, err := w.srv.AddLiquidity(sdk.WrapSDKContext(ctx), m)
 		if err == nil {
 			w.lastAdd[sym+"/"+u.String()] = w.height
 		}
@@ -1360,6 +1404,120 @@ func init() {
 			w.setDistribute(modes[1])
 			w.setHeight(208)
 			w.opEpoch()
+		}
+		// D25: more pools than any page size (201): every pool takes part in the provider distribution and in the depth
+		// rewards of a block, and every record is in the dump (read from the raw store)
+		{
+			old := ammTokens
+			var toks []string
+			for i := 0; i < 201; i++ {
+				toks = append(toks, fmt.Sprintf("ct%03d", i))
+			}
+			ammTokens = toks
+			w := newAmmWorld(rng, out, 2, -1)
+			ammTokens = old
+			w.fundAll()
+			for i, t := range toks {
+				if w.halted {
+					break
+				}
+				w.quiet = i > 2 && i < len(toks)-1 // observe only the first and the last creations
+				w.opCreate(w.users[0], t, e18(1000), e18(10))
+			}
+			w.quiet = false
+			w.opAdd(w.users[1], toks[len(toks)-1], e18(1000), e18(10))
+			w.app.ClpKeeper.SetProviderDistributionParams(w.ctx, &clptypes.ProviderDistributionParams{DistributionPeriods: []*clptypes.ProviderDistributionPeriod{{DistributionPeriodBlockRate: sdk.NewDecWithPrec(1, 3), DistributionPeriodStartBlock: 2, DistributionPeriodEndBlock: 2, DistributionPeriodMod: 1}}})
+			w.cfg("lppd 2 2 1000000000000000 1")
+			def := sdk.OneDec()
+			a := sdk.NewUintFromString("2010000000000000000000")
+			per := &clptypes.RewardPeriod{RewardPeriodId: "rp", RewardPeriodStartBlock: 3, RewardPeriodEndBlock: 4, RewardPeriodAllocation: &a, RewardPeriodDefaultMultiplier: &def, RewardPeriodDistribute: false, RewardPeriodMod: 1}
+			p := w.app.ClpKeeper.GetRewardsParams(w.ctx)
+			p.RewardPeriods = []*clptypes.RewardPeriod{per}
+			w.app.ClpKeeper.SetRewardParams(w.ctx, p)
+			w.cfg("rewardperiod 3 4 2010000000000000000000 1 0 1000000000000000000")
+			w.setHeight(2)
+			for i := 0; i < 3 && !w.halted; i++ {
+				w.opEndBlock()
+			}
+		}
+		// D28: a pool with 100, 101 and 102 providers (around the default page size), another pool sorting after it, then
+		// the decommission: every provider is refunded and every record goes with the pool
+		for _, nProv := range []int{101, 100, 102} {
+			w := newAmmWorld(rng, out, nProv+1, -1)
+			w.quiet = true
+			for _, u := range w.users {
+				for _, d := range []string{"rowan", "ceth", "cusdc"} {
+					w.fund(u, d, new(big.Int).Exp(big.NewInt(10), big.NewInt(30), nil))
+				}
+			}
+			w.opCreate(w.users[0], "ceth", e18(1), new(big.Int).Quo(e18(1), big.NewInt(40)))
+			w.opCreate(w.users[nProv], "cusdc", e18(3), e18(3))
+			for i := 1; i < nProv && !w.halted; i++ {
+				w.quiet = i > 2 && i < nProv-1
+				w.opAdd(w.users[i], "ceth", big.NewInt(1000000000000), big.NewInt(25000000000))
+			}
+			w.quiet = false
+			w.opRm(w.users[0], "ceth", 6000) // below the decommission threshold
+			w.opRm(w.users[0], "ceth", 6000)
+			w.opDecom("ceth")
+			w.opCreate(w.users[0], "ceth", e18(1), e18(1))
+		}
+		// D26: two provider-distribution periods that share a block (A = 10..12, B = 12..14, both mod 1): the policy in
+		// force at a height is the FIRST listed period covering it — the model is told that one before every block —
+		// so block 12 pays A's rate once; whatever is paid to providers is taken off the pools
+		{
+			w := newAmmWorld(rng, out, 3, -1)
+			w.fundAll()
+			w.opCreate(w.users[0], "ceth", e18(1000), e18(50))
+			w.opCreate(w.users[1], "cusdc", e18(3000), e18(3000))
+			w.opAdd(w.users[2], "cusdc", e18(1000), e18(1000))
+			type per struct {
+				a, b uint64
+				rate int64 // 10^-3
+			}
+			list := []per{{10, 12, 10}, {12, 14, 25}}
+			var pp []*clptypes.ProviderDistributionPeriod
+			for _, x := range list {
+				pp = append(pp, &clptypes.ProviderDistributionPeriod{DistributionPeriodBlockRate: sdk.NewDecWithPrec(x.rate, 3), DistributionPeriodStartBlock: x.a, DistributionPeriodEndBlock: x.b, DistributionPeriodMod: 1})
+			}
+			w.app.ClpKeeper.SetProviderDistributionParams(w.ctx, &clptypes.ProviderDistributionParams{DistributionPeriods: pp})
+			w.setHeight(9)
+			for !w.halted && w.height <= 15 {
+				w.cfg("nolppd")
+				for _, x := range list {
+					if uint64(w.height) >= x.a && uint64(w.height) <= x.b {
+						w.cfg(fmt.Sprintf("lppd %d %d %s %d", x.a, x.b, sdk.NewDecWithPrec(x.rate, 3).BigInt(), 1))
+						break
+					}
+				}
+				w.opEndBlock()
+			}
+		}
+		// D27: a ratio-shifting policy compounding past every bound an administrator could set directly (governance
+		// rate 1, one-block epochs, 25 blocks: running rate 2^25 − 1), driven by the real BeginBlocker; swaps in both
+		// directions are then bounded with the STORED running rate
+		{
+			w := newAmmWorld(rng, out, 3, -1)
+			w.fundAll()
+			w.opCreate(w.users[0], "ceth", e18(100000), e18(5000))
+			w.app.ClpKeeper.SetPmtpParams(w.ctx, &clptypes.PmtpParams{PmtpPeriodGovernanceRate: sdk.OneDec(), PmtpPeriodEpochLength: 1, PmtpPeriodStartBlock: w.height + 1, PmtpPeriodEndBlock: w.height + 25})
+			w.app.ClpKeeper.SetPmtpEpoch(w.ctx, clptypes.PmtpEpoch{EpochCounter: 0, BlockCounter: 0})
+			for i := 0; i < 27 && !w.halted; i++ {
+				w.setHeight(w.height + 1)
+				func() {
+					defer func() {
+						if r := recover(); r != nil {
+							w.halted = true
+						}
+					}()
+					clp.BeginBlocker(w.ctx, w.app.ClpKeeper)
+				}()
+				w.cfg("r " + w.storedRunningRate().String())
+				if i%6 == 5 || i >= 25 {
+					w.opSwap(w.users[1], "ceth", "rowan", e18(1), big.NewInt(0))
+					w.opSwap(w.users[1], "rowan", "ceth", e18(10), big.NewInt(0))
+				}
+			}
 		}
 		// D22: a provider record holding zero units (an add too small to mint a unit) in a pool that is then
 		// decommissioned: either the decommission is refused as a whole or every record goes with the pool
